@@ -22,6 +22,7 @@ import (
 	"github.com/goplus/xgo/tool"
 	"github.com/goplus/xgo/zsim/simrt"
 	"github.com/goplus/xgo/zsim/simrt/harn"
+	"github.com/goplus/xgo/zsim/simrt/simos"
 )
 
 type c36 struct{}
@@ -82,7 +83,9 @@ func (c36) NewRun(plan *simrt.Source, job *harn.Job) harn.Run {
 		return irrelevant[plan.Draw(len(irrelevant))]
 	}
 	kinds := []string{"create", "create", "rewrite", "rewrite", "append", "truncate", "touch", "touch", "rename", "delete", "mkdir", "subfile",
-		"chmod", "file-to-dir", "dir-to-file", "huge", "epoch", "far-future", "empty"}
+		"chmod", "file-to-dir", "dir-to-file", "huge", "epoch", "far-future", "empty",
+		// another process changes ONE file while the hash is being computed
+		"during:delete", "during:hide", "during:create", "during:touch"}
 	for i := 0; i < n; i++ {
 		s := step{Kind: kinds[plan.Draw(len(kinds))], Name: name(), Name2: name(), Size: plan.Draw(40), Clock: plan.Draw(len(clockSteps))}
 		r.steps = append(r.steps, s)
@@ -384,6 +387,54 @@ func (r *c36run) runSeq(sim *simrt.Sim) {
 		}
 		if r.failure != nil {
 			break
+		}
+		if strings.HasPrefix(st.Kind, "during:") {
+			// The change happens WHILE PkgHash runs: at a seeded point between its
+			// look at the directory listing and its looks at the individual files.
+			// A scan that reads each file's attributes once, at some instant, sees
+			// the state before or the state after this single-file change — the
+			// operation linearizes before or after it; any other value is the hash
+			// of a directory that never existed.
+			fi, lerr := os.Lstat(p)
+			okTarget := lerr == nil && fi.Mode().IsRegular()
+			if st.Kind == "during:create" {
+				okTarget = lerr != nil
+			}
+			if !okTarget {
+				did = "skip"
+			} else {
+				at, n, fired := st.Size%(len(prevProj)+2), 0, false
+				simos.Install(&simos.Hooks{Read: func(kind, path string) error {
+					if n == at && !fired {
+						fired = true
+						switch st.Kind {
+						case "during:delete":
+							os.Remove(p)
+						case "during:hide":
+							os.Rename(p, filepath.Join(pkgDir, "_hidden_"+st.Name))
+						case "during:create":
+							os.WriteFile(p, content(1+st.Size, i), 0644)
+							stamp(p)
+						case "during:touch":
+							stamp(p)
+						}
+						res.Faults["file-changed-while-hashing:"+kind]++
+					}
+					n++
+					return nil
+				}})
+				hd := imp.PkgHash(pkgPath, r.self)
+				simos.Install(nil)
+				if !fired {
+					res.Probes["concurrent-change-point-not-reached"]++
+				} else {
+					hq := imp.PkgHash(pkgPath, r.self)
+					r.judged++
+					if hd != prevHash && hd != hq {
+						fail("oracle:torn-hash", fmt.Sprintf("step %d (%s %s at read %d of the scan): the hash computed while the file changed (%s) is neither the hash before the change (%s) nor the hash after it (%s)", i, st.Kind, st.Name, at, hd[:10], prevHash[:10], hq[:10]), "hash of a directory state that never existed: "+st.Kind+" "+kindOf(st.Name))
+					}
+				}
+			}
 		}
 		proj, err := project(pkgDir)
 		if err != nil {
